@@ -137,7 +137,7 @@ func (e *Enc) houdini(pre []string, workdir string) {
 				sem <- struct{}{}
 				defer func() { <-sem }()
 				// quantifier-free slice only: an unsat answer stays valid, anything else just drops the candidate
-				q := e.buildQueryX(pre, j.o, false, true)
+				q := e.buildQueryX(pre, j.o, false, !e.quantCands)
 				r := solve(workdir, fmt.Sprintf("cand_%d_%d", iter, ji), q, 3, false)
 				if r.Verdict != "unsat" {
 					mu.Lock()
@@ -206,6 +206,23 @@ func (p *Prog) encodeFunction(fn *ssa.Function, ct *Contract) *Enc {
 	}
 	if len(ct.Results) != fn.Signature.Results().Len() {
 		e.specError(fmt.Sprintf("contract %s is stale: header has %d results, function has %d", ct.Key, len(ct.Results), fn.Signature.Results().Len()))
+	}
+	// package initialisation: the ensures of a contract on <pkg>.init (proved separately against the
+	// package's init function) are assumed at entry, together with A13 (package-level variables written
+	// only by init keep that value)
+	if fn.Pkg != nil && fn.Name() != "init" {
+		if ict := p.contracts.ByKey[fn.Pkg.Pkg.Path()+".init"]; ict != nil {
+			ienv := f.baseEnv(st)
+			for _, en := range ict.Ensures {
+				t, err := ienv.evalBool(en.Expr)
+				if err != nil {
+					e.specError(fmt.Sprintf("%s init ensures %q: %v", ct.Key, en.Text, err))
+					continue
+				}
+				e.assume(t)
+			}
+			e.trust("A13 package-level state established by " + fn.Pkg.Pkg.Path() + ".init (proved) is unchanged afterwards")
+		}
 	}
 	// requires
 	env := f.baseEnv(st)
